@@ -2,6 +2,8 @@
 # Runs goldmark's own suite with the verif guard OFF and prints the number of passed tests
 # (BASELINE.json expects 708 stable passes, no failures).
 export GOFLAGS=-mod=mod GOPROXY=off GOSUMDB=off GOTOOLCHAIN=local
+# the three wall-clock tests of the root package scale their limit by this variable; a loaded machine is not a failing change
+export GOLDMARK_TEST_TIMEOUT_MULTIPLIER="${GOLDMARK_TEST_TIMEOUT_MULTIPLIER:-${SUITE_TIMEOUT_MULTIPLIER:-1}}"
 cd "${VERIF_REPO:-/repo}" || exit 2
 out=$(go test -mod=mod -json -vet=off -count=1 -timeout 25m ./... 2>&1)
 pass=$(printf '%s\n' "$out" | grep -c '"Action":"pass","Package":"[^"]*","Test"')
